@@ -3,7 +3,7 @@ import sys, time, json, itertools
 import vlib, zoo
 
 PID = 'C09'
-KINDS = ['A', 'B', 'C', 'D', 'Z', 'G', 'X', 'S']
+KINDS = ['A', 'B', 'C', 'D', 'Z', 'G', 'X', 'S', 'Y']
 LAYOUTS = ['natural', 'flush', '4']
 
 
@@ -16,7 +16,11 @@ def mklink(kind, pos, layout, hiserial=False):
         # synthesised 3-channel 64/128 link with floor 0 whose padded packets straddle pages (some pages carry no granule position)
         return zoo.synth_link('c09_S_%d' % serial, serial, 64, 128, 14, ch=3, rate=16000, pad=500, span=3, floortype=0)
     if kind == 'X':
-        return zoo.multiplexed('A', serial, layout if layout != 'natural' else '3', fserial=9000 + pos)
+        # (the 'natural' layout puts all audio into ONE page behind a foreign page: first==last audio page away from the data offset)
+        return zoo.multiplexed('A', serial, layout, fserial=9000 + pos)
+    if kind == 'Y':
+        # multiplexed short clip: a foreign page lies between the headers and the only audio page (the flush layout gives several audio pages)
+        return zoo.multiplexed('D', serial, layout, fserial=9100 + pos)
     if kind == 'G' and layout == 'natural':
         layout = '3'   # a start offset is only defined when the first page is not also the last
     return zoo.link(kind, serial, layout)
